@@ -194,7 +194,9 @@ def run(ctx):
         for s in ["\x1b[m", "a\x1b[mb", "\x1b[38;5;196mred\x1b[0m", "\x1b[2J\x1b[Hhome",
                   "\x1b[1;31mbold red\x1b[22;39m", "x\x1b[10;20Hy\x1b[Kz",
                   "\x1b[;5Hfoo", "\x1b[;Hfoo", "\x1b[;1mbold\x1b[0m", "\x1b[1;;31mred\x1b[m", "a\x1b[;2Jb",
-                  "\x9b31mfoo\x9b0m", "\x9b2J\x9bHhello", "a\x9b38;5;100mb", "\x9b;5Hfoo\x1b[0m"]:
+                  "\x9b31mfoo\x9b0m", "\x9b2J\x9bHhello", "a\x9b38;5;100mb", "\x9b;5Hfoo\x1b[0m",
+                  # parameters longer than Python's int/str conversion limit (4300 digits)
+                  "a\x1b[" + "1" * 5000 + "mb", "\x1b[38;5;" + "9" * 4400 + "mtext\x1b[0m", "x\x1b[" + "7" * 4301 + "Hy"]:
             text = re.sub(r"(?:\x1b\[|\x9b)[0-9;]*[A-Za-z]", "", s)
             pieces = []
             pos = 0
